@@ -71,7 +71,10 @@ type ShallowCommitError struct {
 	TableSums map[string][][]byte
 }
 
-func NewShallowCommitError(db objects.Store, rs ref.Store, coms []*objects.Commit) *ShallowCommitError {
+// NewShallowCommitError returns a *ShallowCommitError if some of coms lack their
+// table, nil if none does, and the underlying error if the remote that a missing
+// table came from cannot be determined (it used to panic in that case).
+func NewShallowCommitError(db objects.Store, rs ref.Store, coms []*objects.Commit) (*ShallowCommitError, error) {
 	e := &ShallowCommitError{
 		ComSumMap: map[string]struct{}{},
 		TableSums: map[string][][]byte{},
@@ -81,18 +84,18 @@ func NewShallowCommitError(db objects.Store, rs ref.Store, coms []*objects.Commi
 			e.ComSumMap[string(com.Sum)] = struct{}{}
 			rem, err := FindRemoteFor(db, rs, com.Sum)
 			if err != nil {
-				panic(err)
+				return nil, fmt.Errorf("error finding the remote of shallow commit %x: %w", com.Sum, err)
 			}
 			if rem == "" {
-				panic(fmt.Errorf("no remote found for table %x", com.Table))
+				return nil, fmt.Errorf("no remote found for table %x", com.Table)
 			}
 			e.TableSums[rem] = append(e.TableSums[rem], com.Table)
 		}
 	}
 	if len(e.ComSumMap) > 0 {
-		return e
+		return e, nil
 	}
-	return nil
+	return nil, nil
 }
 
 func (e *ShallowCommitError) Error() string {
